@@ -222,5 +222,6 @@ pub fn cfg_case(monitor: &str, cfg: &crate::cfg::Cfg, how: crate::drive::How) ->
         .set("monitor", monitor)
         .set("owned", how.owned)
         .set("wrap", how.wrap)
+        .set("probe", how.probe)
         .set("cfg", cfg.to_json())
 }
